@@ -75,6 +75,7 @@ type valueCase struct {
 	Args     valueArgs       `json:"args"`
 	Gene     json.RawMessage `json:"gene"`
 	Hit      bool            `json:"hit"`
+	Extra    []int           `json:"extra"`
 	Copy     jMod            `json:"copy"`
 	CopyHit  bool            `json:"copy_hit"`
 	Rec      jInnov          `json:"rec"`
@@ -346,17 +347,17 @@ func controlNode(id int, ins, outs []int, pool map[int]*network.NNode) *network.
 // intersectsThroughMating observes MIMOControlGene.hasIntersection (unexported) through the public effect it has:
 // multipoint crossover hands a parent's control gene to the child iff the gene has an IO node among the child's nodes,
 // which are the parents' sensors and outputs (1, 2) plus the end points of the inherited connection genes (probe).
-func intersectsThroughMating(mk func(pool map[int]*network.NNode) *genetics.MIMOControlGene, probe []int) (hit bool, ok bool, problem string) {
+func intersectsThroughMating(mk func(pool map[int]*network.NNode) *genetics.MIMOControlGene, probe []int) (hit bool, ok bool, problem string, extra []int) {
 	var parentGene *genetics.MIMOControlGene
 	in := map[int]bool{}
 	for _, p := range probe {
 		in[p] = true
 		if p > 6 {
-			return false, false, ""
+			return false, false, "", nil
 		}
 	}
 	if !in[1] || !in[2] {
-		return false, false, ""
+		return false, false, "", nil
 	}
 	parent := func(withModule bool) *genetics.Genome {
 		pool := map[int]*network.NNode{1: network.NewSensorNode(1, false), 2: network.NewNNode(2, network.OutputNeuron)}
@@ -382,15 +383,23 @@ func intersectsThroughMating(mk func(pool map[int]*network.NNode) *genetics.MIMO
 	var child *genetics.Genome
 	var err error
 	if p := vhu.Guard(func() { child, err = a.VerifMateMultipoint(b, 3, 1, 1) }); p != "" {
-		return false, true, "multipoint crossover of the probe genomes panicked: " + p
+		return false, true, "multipoint crossover of the probe genomes panicked: " + p, nil
 	}
 	if err != nil || child == nil {
-		return false, true, fmt.Sprintf("multipoint crossover of the probe genomes failed: %v", err)
+		return false, true, fmt.Sprintf("multipoint crossover of the probe genomes failed: %v", err), nil
 	}
 	if len(child.ControlGenes) > 0 && child.ControlGenes[0] == parentGene {
 		sharedControlGene++
 	}
-	return len(child.ControlGenes) > 0, true, ""
+	// the child's own nodes are the probe nodes in ascending id order; whatever follows was appended for the control gene
+	own := 0
+	for own < len(child.Nodes) && own < len(probe) && in[child.Nodes[own].Id] {
+		own++
+	}
+	for _, n := range child.Nodes[own:] {
+		extra = append(extra, n.Id)
+	}
+	return len(child.ControlGenes) > 0, true, "", extra
 }
 
 // sharedControlGene counts crossovers whose child holds the parent's control gene OBJECT (observation, not judged here).
@@ -477,7 +486,7 @@ func (st *state) replayMimo(c *valueCase, f *failer) bool {
 		}
 		st.rep.Evaluations += 2
 	}
-	hit, ok, problem := intersectsThroughMating(func(pl map[int]*network.NNode) *genetics.MIMOControlGene {
+	hit, ok, problem, extra := intersectsThroughMating(func(pl map[int]*network.NNode) *genetics.MIMOControlGene {
 		return genetics.NewMIMOGene(controlNode(nd.Id, nd.Ins, nd.Outs, pl), c.Args.Inn, float64(c.Args.Mut)/8, c.Args.En)
 	}, c.Args.Probe)
 	if problem != "" {
@@ -488,8 +497,11 @@ func (st *state) replayMimo(c *valueCase, f *failer) bool {
 		if hit != c.Hit {
 			f.fail("crossover hands the control gene (io %v) to a child with nodes %v: %v, hasIntersection of the specification gives %v",
 				want.Io, c.Args.Probe, hit, c.Hit)
+		} else if !eqInts(extra, c.Extra) {
+			f.fail("crossover appends the nodes %v for the inherited control gene (io %v, child nodes %v), the specification's IO order gives %v",
+				extra, want.Io, c.Args.Probe, c.Extra)
 		}
-		hit2, _, problem2 := intersectsThroughMating(func(pl map[int]*network.NNode) *genetics.MIMOControlGene {
+		hit2, _, problem2, _ := intersectsThroughMating(func(pl map[int]*network.NNode) *genetics.MIMOControlGene {
 			first := genetics.NewMIMOGene(controlNode(nd.Id, nd.Ins, nd.Outs, pl), c.Args.Inn, float64(c.Args.Mut)/8, c.Args.En)
 			return genetics.NewMIMOGeneCopy(first, controlNode(c.Copy.Nid, c.Copy.Ins, c.Copy.Outs, pl))
 		}, c.Args.Probe)
